@@ -1,6 +1,7 @@
 import Driver.Common
 import CoapVerif.Model.Server
 import Driver.C10Streams
+import Driver.C10Tokens
 /-!
 Driver for C10.  `model`: `keyeq …` from `normLocal`; other lines `n/a`.
 `judge`: `<input> | <observed>`: spec key equality for `keyeq`; for `serve`: every well-behaved client received all its
@@ -143,6 +144,7 @@ def handle (mode : String) (line : String) : String :=
       match words inp with
       | "table" :: evs => tableModel evs
       | "streams" :: _ :: evs => Streams.model evs
+      | "discover" :: "tok" :: pairs => Tokens.model pairs
       | ["discover", n] => match n.toNat? with | some n => discoverModel n false | none => "bad-op"
       | ["discover", n, "dup"] => match n.toNat? with | some n => discoverModel n true | none => "bad-op"
       | ["discover", n, "failsend"] => match n.toNat? with | some n => discoverFailModel n | none => "bad-op"
@@ -213,6 +215,7 @@ def handle (mode : String) (line : String) : String :=
         else s!"violates a second peer's request was not answered within its deadline ({w} ms) while another peer's well-formed requests were being handled"
       | _ => "violates unparsable-observation"
     | "serve" :: _ => judgeServe obs
+    | "discover" :: "tok" :: pairs => Tokens.judge pairs obs
     | ["discover", n] =>
       match words obs with
       | ["receiver", "ok", frac, "bad", b, "default", d] =>
